@@ -52,7 +52,14 @@ def h_namespace_dns(ex, p, args, kw, node):
     return [(p, Opq("UUID", z3.Const("uuid_NAMESPACE_DNS", UUID)))]
 
 
+def h_now(ex, p, args, kw, node):
+    ex.trace["assumed"].add("datetime.now() returns some datetime (nothing assumed about its value)")
+    from .values import opaque_sort
+    return [(p, Opq("DateTime", ex.fresh_sym(opaque_sort("DateTime"), "now", node)))]
+
+
 STDLIB = {
+    "datetime.datetime.now": h_now,
     "uuid.NAMESPACE_DNS": h_namespace_dns,
     "math.floor": h_floor, "math.ceil": h_ceil,
     "uuid.UUID": h_uuid_ctor, "uuid.uuid4": h_uuid4, "uuid.uuid5": h_uuid5,
